@@ -207,6 +207,16 @@ class C17(Check):
                     except Exception as e:     # pylint: disable=broad-except
                         acc.violation('C17|cli|failed', 'Droop.main failed with %r for file rule %s caller rule %s' % (e, frule, crule), case)
                         continue
+                    # the driver's own options (path, rule, report/dump/json switches) are known options: never 'unused'
+                    try:
+                        rep2 = Droop.main(dict(opts, dump=True, json=True))
+                        for ln in rep2.split('\n')[:14]:
+                            if ln.startswith('\tUnused options: '):
+                                bad = [x for x in ln[len('\tUnused options: '):].split(', ') if x in ('dump', 'json', 'report', 'path', 'rule')]
+                                if bad:
+                                    acc.violation('C17|cli|unused-lists-driver-options', 'report header lists %s as unused options (file rule %s, caller rule %s)' % (bad, frule, crule), case)
+                    except Exception as e:     # pylint: disable=broad-except
+                        acc.violation('C17|cli|failed', 'Droop.main with dump+json failed with %r' % e, case)
                     want = trace.run(text, {'rule': crule or frule}, snapshots=False)
                     info = want.E.rule.info()
                     if ('\tRule: %s\n' % info) not in rep:
